@@ -142,3 +142,11 @@ func (l *ShapedLoader) Load(name string) (stick.Template, error) {
 	}
 	return &shapedTemplate{name, src}, nil
 }
+
+// FaultStringWriter is a FaultWriter that also offers WriteString, as most real destinations do; a call of either
+// method counts as one write.
+type FaultStringWriter struct {
+	*FaultWriter
+}
+
+func (w *FaultStringWriter) WriteString(s string) (int, error) { return w.FaultWriter.Write([]byte(s)) }
